@@ -629,10 +629,13 @@ theorem handleRequest_same (c : Core) (env : Env) (src : Addr) (ro : Bool) (vers
       · split <;> exact ⟨rfl, rfl, rfl⟩
       · exact Same.refl _
     · exact Same.refl _
-  unfold handleRequest serveRequest
+  unfold handleRequest
   split
-  · exact Same.trans h1 (Same.trans (h2 _) ⟨rfl, rfl, rfl⟩)
-  · exact Same.trans h1 (h2 _)
+  · exact Same.refl _
+  · unfold serveRequest
+    split
+    · exact Same.trans h1 (Same.trans (h2 _) ⟨rfl, rfl, rfl⟩)
+    · exact Same.trans h1 (h2 _)
 
 theorem handleIncoming_ok (a : Actor) (h : StatsOk a.core) (env : Env) (handed : Option (Message × Addr)) :
     StatsOk (a.handleIncoming env handed).1.core := by
